@@ -685,7 +685,9 @@ def run(ctx: vlib.Ctx):
     ctx.theorems("props/C05_errors.vo", THEOREMS)
     ctx.theorems("props/C05_typed.vo", TYPED_THEOREMS)
     ctx.theorems("props/C05_xtyped.vo", ["C05_x_outcomes", "C05_x_first_bad", "C05_x_union_position",
-                                         "C05_x_union_rejects_partial", "C05_lit_ok", "C05_lit_exn"])
+                                         "C05_x_union_rejects_partial", "C05_lit_ok", "C05_lit_exn",
+                                         "C05_x_list_exn", "C05_x_list_ok", "C05_x_list_union_rejects_partial",
+                                         "C05_x_dict_not_mapping"])
     # (T) kernel K16: emitted handler classes + exceptions.py hierarchy, re-translated from /repo on every run
     ctx.theorems("props/C05_handlers.vo", ["C05_k16_handlers_as_modelled", "C05_k16_documented_pass_through",
                                            "C05_k16_model_patterns"], kernels=["K16"])
